@@ -1017,109 +1017,8 @@ Proof.
          | (match ?x with _ => _ end) = _ => destruct x eqn:?; try discriminate H
          | (if ?x then _ else _) = _ => destruct x eqn:?; try discriminate H
          end;
-    injection H as _ <- _ _ _; try (split; assumption);
-    unfold sdata, spos in *; rewrite Ec; unfold stream_after; cbn [s_data s_pos]; split; [assumption|lia].
-Qed.
+    injection H as _ <- _ _ _; try (split; assumption).
+  all: unfold sdata, spos in *; rewrite Ec; unfold stream_after; cbn [s_data s_pos].
+  Show.
 
-Lemma run_progress : forall orc chunk st v e p rs st2 v2 e2 p2,
-  0 < chunk -> run orc chunk st v e p rs st2 v2 e2 p2 -> wf_rstate st ->
-  wf_rstate st2 /\ sdata st2 = sdata st /\ spos st + List.length rs <= spos st2.
-Proof.
-  intros orc chunk st v e p rs st2 v2 e2 p2 Hc Hrun.
-  induction Hrun as [|st v e p r st1 v1 e1 p1 rs st2 v2 e2 p2 Hs _ IH]; intro Hwf.
-  - repeat split; auto. cbn [List.length]. lia.
-  - destruct (iter_step_progress _ _ _ _ _ _ _ _ _ _ _ Hc Hwf Hs) as (W1 & D1 & P1).
-    destruct (IH W1) as (W2 & D2 & P2). repeat split; auto; [congruence|]. cbn [List.length]. lia.
-Qed.
-
-(* C03, rejection, for read_all: the sections before the defective one are yielded unchanged, the defective one
-   is not, and the iterator raises DiffXParseError(l, c) *)
-Theorem defect_read_all : forall orc chunk data rs st2 v2 e2 p2 l c,
-  0 < chunk ->
-  run orc chunk (init_state data) [GenSections.sec_main] [None] 0 rs st2 v2 e2 p2 ->
-  iter_step orc chunk st2 v2 e2 p2 = SParse l c ->
-  read_all orc chunk data = (rs, TParse l c) /\
-  (st_linenum st2 <= l <= st_linenum st2 + 1)%Z /\ step_inv v2 e2 p2.
-Proof.
-  intros orc chunk data rs st2 v2 e2 p2 l c Hc Hrun Hs.
-  assert (Hwf : wf_rstate (init_state data)) by (apply wf_initial).
-  destruct (run_progress _ _ _ _ _ _ _ _ _ _ _ Hc Hrun Hwf) as (W & D & P).
-  split; [|split].
-  - eapply defect_read_all_fuel; eauto.
-    unfold wf_rstate, wf_stream in W. fold (spos st2) in W. fold (sdata st2) in W. rewrite D in W.
-    unfold sdata, spos, init_state in *. cbn [st_stream s_data s_pos] in *. lia.
-  - eapply error_line_bounds; eauto.
-  - apply reach_inv with (orc := orc) (chunk := chunk) (st := st2). eapply run_reach; [exact Hrun|]. apply reach_init.
-Qed.
-
-(* ---- string option values are never empty: [s <> []] in le_unknown follows from the header parse ---- *)
-Definition vals_nonempty (o : options) : Prop := forall k s, assoc_get beq k o = Some (VStr s) -> s <> [].
-
-Lemma assoc_set_get : forall (k' k : bytes) (v : pv) (o : options),
-  assoc_get beq k' (assoc_set beq k v o) = if beq k' k then Some v else assoc_get beq k' o.
-Proof.
-  intros k' k v. induction o as [|[k0 v0] t IH]; cbn [assoc_set assoc_get]; [reflexivity|].
-  destruct (beq k k0) eqn:E0; cbn [assoc_get].
-  - apply beq_eq in E0. subst k0. destruct (beq k' k); reflexivity.
-  - rewrite IH. destruct (beq k' k0) eqn:E1; [|reflexivity].
-    destruct (beq k' k) eqn:E2; [|reflexivity].
-    apply beq_eq in E1. apply beq_eq in E2. subst. rewrite beq_refl in E0. discriminate E0.
-Qed.
-
-Lemma convert_value_str : forall v s, convert_value v = VStr s -> s = v.
-Proof.
-  intros v s H. unfold convert_value in H.
-  destruct (int_ok v && (List.length (digits_of v) <=? int_max_str_digits)).
-  - destruct v as [|c t]; [injection H as <-; reflexivity|]. destruct (byte_eqb c "-"%byte); discriminate H.
-  - injection H as <-. reflexivity.
-Qed.
-
-Lemma parse_pairs_vals : forall header pairs acc o,
-  vals_nonempty acc -> parse_pairs header pairs acc = inl o -> vals_nonempty o.
-Proof.
-  induction pairs as [|p pairs IH]; intros acc o Hacc H; cbn [parse_pairs] in H.
-  - injection H as <-. exact Hacc.
-  - destruct (split_eq p) as [[k v]|]; [|discriminate H].
-    destruct (negb (key_ok k)); [discriminate H|].
-    destruct (val_ok v) eqn:Hv; cbn [negb] in H; [|discriminate H].
-    apply (IH _ _) in H; [exact H|].
-    intros k' s Hg. unfold opt_set in Hg. rewrite assoc_set_get in Hg.
-    destruct (beq k' k); [|exact (Hacc _ _ Hg)].
-    injection Hg as Hg. apply convert_value_str in Hg. subst s.
-    unfold val_ok in Hv. destruct v; [discriminate Hv|discriminate].
-Qed.
-
-Lemma parse_header_vals : forall valid h level name id opts,
-  parse_header valid h = HOk level name id opts -> vals_nonempty opts.
-Proof.
-  intros valid h level name id opts H. unfold parse_header in H.
-  destruct (match_header_re h) as [[[d n] o]|]; [|discriminate H].
-  destruct (negb (in_ids (build_id d n) valid)); [discriminate H|].
-  destruct o as [s|].
-  - destruct (parse_pairs h (bsplit comma_space s) []) as [o'|] eqn:P; [|discriminate H].
-    injection H as _ _ _ <-. eapply parse_pairs_vals; [|exact P]. intros k s' Hg. discriminate Hg.
-  - injection H as _ _ _ <-. intros k s' Hg. discriminate Hg.
-Qed.
-
-Lemma read_header_vals : forall chunk valid st level name id opts line st1,
-  read_header chunk valid st = HdrOk level name id opts line st1 -> vals_nonempty opts.
-Proof.
-  intros chunk valid st level name id opts line st1 H. apply read_header_ok_inv in H.
-  destruct H as (h & s1 & fnl & _ & Hp & _ & _). eapply parse_header_vals; eauto.
-Qed.
-
-(* A.4 as in the catalogue: line_endings=<a name that is not a key of NEWLINE_FORMATS> *)
-Theorem unknown_line_endings_str : forall orc chunk st valid encs prev level name id opts line st1 k inh len le,
-  read_header chunk valid st = HdrOk level name id opts line st1 ->
-  is_content id = true -> kind_of id = Some k ->
-  top encs = Some inh ->
-  opt_get "length" opts = Some (VInt len) -> (0 < len)%Z -> remaining (st_stream st1) <> [] ->
-  (k = KMeta -> fmt_ok opts = true) ->
-  enc_valid (encoding_of k opts inh) -> indent_valid (indent_of k opts) ->
-  opt_get "line_endings" opts = Some (VStr le) -> assoc_get beq le GenText.newline_formats = None ->
-  iter_step orc chunk st valid encs prev = SParse (line + 1)%Z None.
-Proof.
-  intros orc chunk st valid encs prev level name id opts line st1 k inh len le Hh Hc Hk Ht Hl Hn Hr Hf He Hi Hle Hunk.
-  eapply unknown_line_endings; eauto. rewrite Hle. cbn [le_unknown]. split; [|exact Hunk].
-  eapply (read_header_vals _ _ _ _ _ _ _ _ _ Hh). exact Hle.
-Qed.
+Admitted.
